@@ -155,10 +155,17 @@ Canon(T, s) == LET r == CanonAcc(T, Comps(s), <<>>) IN [ok |-> r.ok, s |-> AbsSt
 (* Utility syntax (XBD 12.2): option arguments as written, e.g.            *)
 (* <<"-L", "-Pe">>; "--" ends the options.  Result: the letters given.     *)
 (***************************************************************************)
+\* The manual's long names (a non-standard extension) stand for their letters;
+\* any other long option is the unknown letter "?".
+LongLetter(o) ==
+  CASE o = "--logical" -> "L" [] o = "--physical" -> "P" [] o = "--ensure-pwd" -> "e" [] OTHER -> "?"
+
 RECURSIVE Letters(_)
 Letters(opts) ==
   IF (IF opts = <<>> THEN TRUE ELSE Head(opts) = "--") THEN <<>>
-  ELSE LET o == Head(opts) IN [i \in 1..(Len(o) - 1) |-> SubSeq(o, i + 1, i + 1)] \o Letters(Tail(opts))
+  ELSE LET o == Head(opts) IN
+       (IF Len(o) > 2 /\ SubSeq(o, 1, 2) = "--" THEN <<LongLetter(o)>>
+        ELSE [i \in 1..(Len(o) - 1) |-> SubSeq(o, i + 1, i + 1)]) \o Letters(Tail(opts))
 
 \* "-L / -P: if both are specified, the last of these options shall be used";
 \* "if neither is specified, the default is -L"
@@ -169,8 +176,9 @@ ModeOf(ls) ==
 (***************************************************************************)
 (* State and results.                                                      *)
 (***************************************************************************)
+\* ro: which of PWD, OLDPWD have been made read-only
 MkState(cwd, pwd, oldpwd, home, cdpath) ==
-  [cwd |-> cwd, pwd |-> pwd, oldpwd |-> oldpwd, home |-> home, cdpath |-> cdpath]
+  [cwd |-> cwd, pwd |-> pwd, oldpwd |-> oldpwd, home |-> home, cdpath |-> cdpath, ro |-> {}]
 
 \* st = <<lo, hi>>: the exit status must lie in lo..hi
 Res(S, lo, hi, out) == [st |-> <<lo, hi>>, out |-> out, S |-> S, unspec |-> FALSE]
@@ -189,10 +197,12 @@ Unspec(S) == [st |-> <<0, 255>>, out |-> <<>>, S |-> S, unspec |-> TRUE]
 Start(T, cwd, env) ==
   MkState(cwd, IF ValidPwd(T, cwd, env.pwd) THEN env.pwd ELSE AbsStr(cwd), env.oldpwd, env.home, env.cdpath)
 
+\* name = "readonly": `readonly val` (val is PWD or OLDPWD)
 SetVar(S, name, val) ==
   CASE name = "HOME" -> [S EXCEPT !.home = val]
     [] name = "CDPATH" -> [S EXCEPT !.cdpath = val]
     [] name = "OLDPWD" -> [S EXCEPT !.oldpwd = val]
+    [] name = "readonly" -> [S EXCEPT !.ro = @ \cup {val}]
 
 (***************************************************************************)
 (* cd steps 3-6: the search through CDPATH.  Applies if the operand does   *)
@@ -218,8 +228,15 @@ CdpathSearch(T, S, opnd) ==
 \* step 10 done: the working directory is d, "the PWD environment variable
 \* shall be set", OLDPWD "shall be set to the value of the old working
 \* directory (that is the value of PWD immediately prior to the call)"
+\* Manual: "The built-in may also fail if PWD or OLDPWD is read-only.  In this
+\* case, the working directory remains changed, but the variable is not
+\* updated" and the exit status is 1.  (What is printed then is left open.)
 Changed(S, d, newpwd, pr) ==
-  Res([S EXCEPT !.cwd = d, !.pwd = newpwd, !.oldpwd = S.pwd], 0, 0, IF pr THEN <<newpwd>> ELSE <<>>)
+  IF S.ro = {} THEN Res([S EXCEPT !.cwd = d, !.pwd = newpwd, !.oldpwd = S.pwd], 0, 0, IF pr THEN <<newpwd>> ELSE <<>>)
+  ELSE IF pr THEN Unspec(S)
+  ELSE Res([S EXCEPT !.cwd = d,
+                     !.pwd = IF "PWD" \in S.ro THEN @ ELSE newpwd,
+                     !.oldpwd = IF "OLDPWD" \in S.ro THEN @ ELSE S.pwd], 1, 1, <<>>)
 
 (***************************************************************************)
 (* cd.  Exit statuses as in the manual: 2 chdir failed, 3 a dot-dot        *)
@@ -308,8 +325,19 @@ ThmSuccess(T, S1, mode, R) ==
      /\ R.S.home = S1.home /\ R.S.cdpath = S1.cdpath
      /\ R.out \in {<<>>, <<R.S.pwd>>}
 
-\* a failing cd changes nothing and prints nothing
-ThmFailure(S1, R) == (R.st[1] > 0) => (R.S = S1 /\ R.out = <<>>)
+\* a failing cd changes nothing and prints nothing (the one exception: the
+\* working directory changed but a read-only variable could not follow)
+ThmFailure(S1, R) == (R.st[1] > 0 /\ S1.ro = {}) => (R.S = S1 /\ R.out = <<>>)
+
+\* read-only PWD / OLDPWD: the working directory changes exactly as it would
+\* otherwise, the read-only variable keeps its value, the other one is updated
+ThmReadonly(T, S1, opts, args, R) ==
+  (S1.ro # {} /\ ~R.unspec) =>
+     LET R0 == Cd(T, [S1 EXCEPT !.ro = {}], opts, args) IN
+     IF R0.st # <<0, 0>> THEN R.st = R0.st /\ R.S = S1
+     ELSE /\ R.st = <<1, 1>> /\ R.S.cwd = R0.S.cwd
+          /\ R.S.pwd = (IF "PWD" \in S1.ro THEN S1.pwd ELSE R0.S.pwd)
+          /\ R.S.oldpwd = (IF "OLDPWD" \in S1.ro THEN S1.oldpwd ELSE S1.pwd)
 
 \* `cd -` prints, and a second `cd -` is back where the first one started
 ThmSwap(T, S1, R) ==
